@@ -152,6 +152,7 @@ type FnCtx struct {
 	lastFoldHeaps, lastFoldSorts, lastFoldArgs []string
 	lastFoldElemAt                             func(string) string
 	abbrev                                     map[string]string      // large integer terms of predicates -> the constant naming them
+	refAlias                                   map[string]string      // constant naming a native result -> the reference term it may be equal to
 	noAux                                      bool                   // do not emit the defining facts of pow2 / bitlen terms (elements of folds at witness positions)
 	mapIters                                   map[string]mapIterInfo // map iterators: the map they range over and its key set at that moment
 	hasMixedQuant                              bool                   // some quantified variable is used both as a position and as a map key
@@ -1459,6 +1460,14 @@ func (fc *FnCtx) escape(term string) {
 	if len(fc.localRefs) == 0 || term == "" {
 		return
 	}
+	// constants that name "the receiver or nil" results of native calls stand for the receiver
+	for round := 0; round < 2 && len(fc.refAlias) > 0; round++ {
+		for a, r := range fc.refAlias {
+			if strings.Contains(term, a) && !strings.Contains(term, r) {
+				term += " " + r
+			}
+		}
+	}
 	for r := range fc.localRefs {
 		if strings.Contains(term, r) {
 			if os.Getenv("GVC_DEBUG_ESCAPE") != "" {
@@ -1471,6 +1480,14 @@ func (fc *FnCtx) escape(term string) {
 			delete(fc.localRefs, r)
 		}
 	}
+}
+
+// aliasRef records that the constant c may denote the same object as the reference term r
+func (fc *FnCtx) aliasRef(c, r string) {
+	if fc.refAlias == nil {
+		fc.refAlias = map[string]string{}
+	}
+	fc.refAlias[c] = r
 }
 
 func (fc *FnCtx) escapeVal(v Val) {
